@@ -58,6 +58,8 @@ func ingressOf(r row) *networking.Ingress {
 		ing.Annotations["kubernetes.io/ingress.class"] = "haproxy"
 	case "foreign":
 		ing.Annotations["kubernetes.io/ingress.class"] = "nginx"
+	case "empty":
+		ing.Annotations["kubernetes.io/ingress.class"] = ""
 	}
 	return ing
 }
